@@ -13,7 +13,17 @@ PROP = {
             "non-trivial = the CFG has a join (a block with >= 2 incoming edges); distinct by hash of the case text",
     "trusted_base": [KERNEL, HARNESS_TB, "Exec/Sem.v + SSA/SemSSA.v as the meaning of `executing` the two forms"],
     "assumptions": ["a scalar name has one width per function (wf_names)"],
-    "partial": [],
-    "level_text": "",
-    "level_note": "",
+    "partial": ["completeness for ALL programs (`ssa_correct_full`: the algorithm's output always passes the validator) is not proved: "
+                "decided per output by running the verified validator in the kernel [V], proved for 74 676 enumerated functions of <= 3 blocks [F], "
+                "and the Gallina model of the algorithm is tied to the Rust output on every generated case [D]",
+                "`ssa_total_partial` (the model never fails on functions with an entry) not attempted"],
+    "level_text": "Unbounded Coq theorem `ssa_check_sound` (closed under the global context): whenever the executable validator accepts (f, f'), "
+                  "f' differs from f only in ssa fields and phi nodes, is valid SSA (single assignment; every operand, declared intrinsic read, edge guard "
+                  "and phi slot names the most recent definition on every CFG path from the entry; phi arity) and f under Exec/Sem and f' under SSA/SemSSA "
+                  "(phi nodes selecting by incoming edge, in parallel) run in lock step from every initial state for every number of steps (same locations, "
+                  "values, stores, branches, faults). The validator is run in the kernel on the Rust output of every generated function; a Gallina "
+                  "transcription of the algorithm (over the C11 graph models) is compared with the Rust output on the same cases and passes the validator "
+                  "on all 74 676 functions of a small enumerated family.",
+    "level_note": "Trusted: Coq kernel + vm_compute; Exec/Sem.v and SSA/SemSSA.v as the definition of execution; the harness pretty-printer (the "
+                  "dumped f, f' are the terms the validator sees). Not proved: that the algorithm passes the validator on every program.",
 }
